@@ -226,8 +226,9 @@ mod tests {
     #[test]
     fn splitter() {
         assert_eq!(annexb_units(&[0, 0, 1, 5, 0, 0, 0, 1, 6]), vec![&[5u8][..], &[6u8][..]]);
-        assert_eq!(annexb_units(&[0, 0, 1, 0, 0, 1]), vec![&[][..], &[][..]]);
-        assert_eq!(annexb_units(&[0, 0, 1, 0, 0, 0, 1, 7]), vec![&[][..], &[7u8][..]]);
+        let e: &[u8] = &[];
+        assert_eq!(annexb_units(&[0, 0, 1, 0, 0, 1]), vec![e, e]);
+        assert_eq!(annexb_units(&[0, 0, 1, 0, 0, 0, 1, 7]), vec![e, &[7u8][..]]);
         assert_eq!(annexb_units(&[9, 0, 0, 0, 0, 1, 7]), vec![&[7u8][..]]);
         assert_eq!(annexb_units(&[0, 0, 1, 9, 0, 0, 0, 0, 1, 7]), vec![&[9u8, 0][..], &[7u8][..]]);
     }
